@@ -89,3 +89,42 @@ def pktsize_positive(k: Kit, rule: str) -> None:
                               'writer is an open/confirmation handler',
                               '_send_pktsize written outside the open '
                               'handshake (unchecked)', k.loc(fi, n))
+
+
+def futures_guarded(k: Kit, rule: str, modules=None) -> None:
+    """Every set_result / set_exception on a future is dominated by the
+    `<future>.cancelled()` (or `.done()`) test being false: completing a
+    cancelled future raises InvalidStateError out of the dispatcher."""
+    rep = k.rep
+    n = 0
+    for fi in k.idx.iter_funcs(modules):
+        g = None
+        for c in ast.walk(fi.node):
+            if isinstance(c, ast.Call) and isinstance(c.func, ast.Attribute) \
+                    and c.func.attr in ('set_result', 'set_exception'):
+                recv = dotted(c.func.value)
+                if recv is None:
+                    continue
+                g = g or k.cfg(fi)
+                node = g.node_for(c)
+                if node is None:
+                    continue
+                n += 1
+
+                def val(x, recv=recv):
+                    a = x.ast
+                    if x.kind == 'atom' and isinstance(a, ast.Call) and \
+                            isinstance(a.func, ast.Attribute) and \
+                            a.func.attr in ('cancelled', 'done') and \
+                            dotted(a.func.value) == recv:
+                        return False
+                    return None
+                w = g.guarded_by(node.id, val)
+                rep.check(w is None, rule,
+                          key(fi, f'{recv}.{c.func.attr} guarded'),
+                          'future completed only if not cancelled',
+                          f'`{norm(c)[:60]}` can run on a cancelled future: '
+                          'InvalidStateError escapes the dispatcher and the '
+                          'other waiters are never completed',
+                          k.loc(fi, node), g.describe_path(w) if w else None)
+    rep.floor(rule, 'future completion sites', n, 2)
